@@ -14,13 +14,18 @@ Hypothesis HBC : forall n, P (FBoolConst n).
 Hypothesis HC : forall n v, P (FConst n v).
 Hypothesis HBE : forall n e, P (FBoolExpr n e).
 Hypothesis HE : forall n e, P (FExpr n e).
+Hypothesis HU : forall n e, P (FUrl n e).
+Hypothesis HSt : forall n e, P (FStyle n e).
+Hypothesis HSc : forall n e, P (FScript n e).
+Hypothesis HSp : forall e, P (FSpread e).
 Hypothesis HCl : forall n e, P (FClass n e).
 Hypothesis HCond : forall e th el, Forall P th -> Forall P el -> P (FCond e th el).
 Fixpoint fattr_ind' (a : fattr) : P a :=
   let go := fix go (l : list fattr) : Forall P l :=
     match l with [] => Forall_nil P | x :: r => Forall_cons x (fattr_ind' x) (go r) end in
   match a with
-  | FBoolConst n => HBC n | FConst n v => HC n v | FBoolExpr n e => HBE n e | FExpr n e => HE n e | FClass n e => HCl n e
+  | FBoolConst n => HBC n | FConst n v => HC n v | FBoolExpr n e => HBE n e | FExpr n e => HE n e
+  | FUrl n e => HU n e | FStyle n e => HSt n e | FScript n e => HSc n e | FSpread e => HSp e | FClass n e => HCl n e
   | FCond e th el => HCond e th el (go th) (go el)
   end.
 End FattrInd.
@@ -34,6 +39,7 @@ Hypothesis HText : forall v t, P (Text v t).
 Hypothesis HStr : forall e t, P (Str e t).
 Hypothesis HElem : forall name b v attrs ch t, Forall P ch -> P (Elem name b v attrs ch t).
 Hypothesis HRaw : forall name attrs c, P (Raw name attrs c).
+Hypothesis HScript : forall attrs parts, P (Script attrs parts).
 Hypothesis HDoc : forall v, P (Doc v).
 Hypothesis HComment : forall c, P (Comment c).
 Hypothesis HGoComment : P GoComment.
@@ -42,6 +48,8 @@ Hypothesis HIf : forall c th elifs he el, Forall P th -> ForallC P elifs -> Fora
 Hypothesis HSwitch : forall e cases, ForallC P cases -> P (Switch e cases).
 Hypothesis HFor : forall e body, Forall P body -> P (For e body).
 Hypothesis HCall : forall e, P (Call e).
+Hypothesis HCallB : forall e ch, Forall P ch -> P (CallB e ch).
+Hypothesis HChildren : P Children.
 Fixpoint nd_ind' (n : nd) : P n :=
   let go := fix go (l : list nd) : Forall P l :=
     match l with [] => Forall_nil P | x :: r => Forall_cons x (nd_ind' x) (go r) end in
@@ -52,12 +60,14 @@ Fixpoint nd_ind' (n : nd) : P n :=
   match n with
   | Ws => HWs | Text v t => HText v t | Str e t => HStr e t
   | Elem name b v attrs ch t => HElem name b v attrs ch t (go ch)
-  | Raw name attrs c => HRaw name attrs c | Doc v => HDoc v | Comment c => HComment c
+  | Raw name attrs c => HRaw name attrs c | Script attrs parts => HScript attrs parts | Doc v => HDoc v | Comment c => HComment c
   | GoComment => HGoComment | GoCode e => HGoCode e
   | If c th elifs he el => HIf c th elifs he el (go th) (gc elifs) (go el)
   | Switch e cases => HSwitch e cases (gc cases)
   | For e body => HFor e body (go body)
   | Call e => HCall e
+  | CallB e ch => HCallB e ch (go ch)
+  | Children => HChildren
   end.
 End NdInd.
 
@@ -65,14 +75,19 @@ Section StmtInd.
 Variable P : stmt -> Prop.
 Hypothesis HLit : forall s, P (SLit s).
 Hypothesis HExpr : forall e, P (SExpr e).
-Hypothesis HAttrV : forall el n e, P (SAttrV el n e).
+Hypothesis HAttrV : forall k el n e, P (SAttrV k el n e).
+Hypothesis HSpread : forall e, P (SSpread e).
 Hypothesis HHoist : forall e, P (SClassHoist e).
 Hypothesis HUse : forall e, P (SClassUse e).
+Hypothesis HSHoist : forall es, P (SScriptHoist es).
+Hypothesis HJs : forall i e, P (SJs i e).
 Hypothesis HGo : forall e, P (SGo e).
 Hypothesis HIf : forall c th elifs he el, Forall P th -> ForallC P elifs -> Forall P el -> P (SIf c th elifs he el).
 Hypothesis HSwitch : forall e cases, ForallC P cases -> P (SSwitch e cases).
 Hypothesis HFor : forall e body, Forall P body -> P (SFor e body).
 Hypothesis HCall : forall e, P (SCall e).
+Hypothesis HCallB : forall e body, Forall P body -> P (SCallB e body).
+Hypothesis HChildren : P SChildren.
 Fixpoint stmt_ind' (s : stmt) : P s :=
   let go := fix go (l : list stmt) : Forall P l :=
     match l with [] => Forall_nil P | x :: r => Forall_cons x (stmt_ind' x) (go r) end in
@@ -81,12 +96,14 @@ Fixpoint stmt_ind' (s : stmt) : P s :=
     | [] => Forall_nil _
     | p :: r => Forall_cons p (match p as p0 return Forall P (snd p0) with (_, b) => go b end) (gc r) end in
   match s with
-  | SLit a => HLit a | SExpr e => HExpr e | SAttrV el n e => HAttrV el n e | SClassHoist e => HHoist e
-  | SClassUse e => HUse e | SGo e => HGo e
+  | SLit a => HLit a | SExpr e => HExpr e | SAttrV k el n e => HAttrV k el n e | SSpread e => HSpread e
+  | SClassHoist e => HHoist e | SClassUse e => HUse e | SScriptHoist es => HSHoist es | SJs i e => HJs i e | SGo e => HGo e
   | SIf c th elifs he el => HIf c th elifs he el (go th) (gc elifs) (go el)
   | SSwitch e cases => HSwitch e cases (gc cases)
   | SFor e body => HFor e body (go body)
   | SCall e => HCall e
+  | SCallB e body => HCallB e body (go body)
+  | SChildren => HChildren
   end.
 End StmtInd.
 
@@ -134,29 +151,30 @@ Proof.
   destruct r; reflexivity.
 Qed.
 
+Lemma seq_list_map {A B} (f : B -> res) (g : A -> B) l : seq_list f (map g l) = seq_list (fun x => f (g x)) l.
+Proof. induction l as [|x r IH]; [reflexivity|]. cbn [map seq_list]. fold (seq_list f) (seq_list (fun x => f (g x))). rewrite IH. reflexivity. Qed.
+Lemma flat_map_map {A B C} (f : B -> C) (g : A -> list B) l : flat_map (fun a => map f (g a)) l = map f (flat_map g l).
+Proof. induction l as [|x r IH]; [reflexivity|]. cbn [flat_map]. rewrite map_app, IH. reflexivity. Qed.
+
 Section Proofs.
 Variable E : Type.
-Variable escape : bytes -> bytes.
-Variable eval_str : E -> expr -> option bytes.
-Variable eval_bool : E -> expr -> bool.
-Variable eval_for : E -> expr -> list E.
-Variable eval_sw : E -> expr -> nat.
-Variable eval_class : E -> expr -> bytes.
-Variable callee : expr -> bytes.
-Variable call_env : E -> expr -> E.
+Variable orc : oracles E.
 Variable tc : bool.
-Notation EX1 := (exec1 E escape eval_str eval_bool eval_for eval_sw eval_class tc).
-Notation EX := (exec E escape eval_str eval_bool eval_for eval_sw eval_class tc).
-Notation DEN := (denote E escape eval_str eval_bool eval_for eval_sw eval_class tc).
-Notation DENS := (denotes E escape eval_str eval_bool eval_for eval_sw eval_class tc).
-Notation DATTR := (dattr E escape eval_str eval_bool eval_class tc).
-Notation DATTRS := (dattrs E escape eval_str eval_bool eval_class tc).
-Notation CHAIN := (chain E eval_bool).
-Notation GEN := (gen escape).
-Notation GENS := (gens escape).
-Notation GATTR := (gattr escape).
-Notation GATTRS := (gattrs escape).
-Notation SV := (str_val E escape eval_str).
+Notation escape := (o_escape orc).
+Notation eval_bool := (o_bool orc).
+Notation EX1 := (exec1 orc tc).
+Notation EX := (exec orc tc).
+Notation DEN := (denote orc tc).
+Notation DENS := (denotes orc tc).
+Notation DATTR := (dattr orc tc).
+Notation DATTRS := (dattrs orc tc).
+Notation CHAIN := (chain orc).
+Notation GEN := (gen orc).
+Notation GENS := (gens orc).
+Notation GATTR := (gattr orc).
+Notation GATTRS := (gattrs orc).
+Notation xb := (xblock E).
+Notation db := (dblock E).
 
 (* ---------- chain / pick under map and extensionality ---------- *)
 Lemma chain_map {B C} env (f : C -> res) (g : B -> C) l el :
@@ -165,10 +183,10 @@ Proof.
   induction l as [|[c b] r IH]; [reflexivity|]. cbn [map chain]. fold (CHAIN env f) (CHAIN env (fun b => f (g b))).
   rewrite IH. reflexivity.
 Qed.
-Lemma chain_ext {B} env (f g : B -> res) l el el' :
-  Forall (fun p => f (snd p) = g (snd p)) l -> el = el' -> CHAIN env f l el = CHAIN env g l el'.
+Lemma chain_ext {B C} env (f : B -> res) (g : C -> res) (h : B -> C) l el el' :
+  Forall (fun p => f (snd p) = g (h (snd p))) l -> el = el' -> CHAIN env f l el = CHAIN env (fun b => g (h b)) l el'.
 Proof.
-  intros H ->. induction H as [|[c b] r H _ IH]; [reflexivity|]. cbn [chain]. fold (CHAIN env f) (CHAIN env g).
+  intros H ->. induction H as [|[c b] r H _ IH]; [reflexivity|]. cbn [chain]. fold (CHAIN env f) (CHAIN env (fun b => g (h b))).
   cbn [snd] in H. rewrite H, IH. reflexivity.
 Qed.
 Lemma pick_map {B C} (f : C -> res) (g : B -> C) l i :
@@ -184,192 +202,259 @@ Proof.
   destruct i; [exact H|apply IH].
 Qed.
 
-Section WithCall.
-Variable call : E -> expr -> res.
-
-Lemma exec_app env a b : EX call env (a ++ b) = andthen (EX call env a) (EX call env b).
+(* ---------- basic facts about exec, for any handlers ---------- *)
+Section ExecBasics.
+Variable xcall : E -> expr -> option xb -> res.
+Variable xblk : option xb -> res.
+Lemma exec_app env k a b : EX xcall xblk env k (a ++ b) = andthen (EX xcall xblk env k a) (EX xcall xblk env k b).
 Proof. apply seq_list_app. Qed.
-Lemma exec_cons env x r : EX call env (x :: r) = andthen (EX1 call env x) (EX call env r).
+Lemma exec_cons env k x r : EX xcall xblk env k (x :: r) = andthen (EX1 xcall xblk env k x) (EX xcall xblk env k r).
 Proof. reflexivity. Qed.
-Lemma exec_nil env : EX call env [] = unit_r.
+Lemma exec_nil env k : EX xcall xblk env k [] = unit_r.
 Proof. reflexivity. Qed.
-Lemma exec_single env x : EX call env [x] = EX1 call env x.
+Lemma exec_single env k x : EX xcall xblk env k [x] = EX1 xcall xblk env k x.
 Proof. rewrite exec_cons, exec_nil, andthen_unit_r. reflexivity. Qed.
-Lemma exec_push env x acc : EX call env (push x acc) = andthen (EX1 call env x) (EX call env acc).
+Lemma exec_push env k x acc : EX xcall xblk env k (push x acc) = andthen (EX1 xcall xblk env k x) (EX xcall xblk env k acc).
 Proof.
-  destruct x; try reflexivity. destruct acc as [|[b| | | | | | | | |] r]; try reflexivity.
+  destruct x; try reflexivity. destruct acc as [|[b| | | | | | | | | | | | | |] r]; try reflexivity.
   cbn [push]. rewrite !exec_cons. cbn [exec1]. rewrite andthen_lit_lit_r. reflexivity.
 Qed.
+Lemma exec_glit env k s : EX xcall xblk env k (glit s) = lit s.
+Proof. destruct s; [reflexivity|]. cbn [glit]. apply exec_single. Qed.
+Theorem error_stops env k p q : err_of (EX xcall xblk env k p) <> None -> EX xcall xblk env k (p ++ q) = EX xcall xblk env k p.
+Proof. intros H. rewrite exec_app. apply andthen_failed, H. Qed.
+End ExecBasics.
 
 (* ================= merging literals does not change what runs ================= *)
-Lemma coal_sound_list l :
-  Forall (fun s => forall env, EX1 call env (cst s) = EX1 call env s) l ->
-  forall env, EX call env (coal_with cst l) = EX call env l.
+(* child blocks whose bodies differ only by the merging *)
+Inductive CR : option xb -> option xb -> Prop :=
+| CR_none : CR None None
+| CR_some b e k1 k2 : CR k1 k2 -> CR (Some (XBlk (coalesce b) e k1)) (Some (XBlk b e k2)).
+
+Section Coalesce.
+Variable c1 : E -> expr -> option xb -> res.    (* handlers running the merged program *)
+Variable r1 : option xb -> res.
+Variable c2 : E -> expr -> option xb -> res.    (* handlers running the unmerged program *)
+Variable r2 : option xb -> res.
+Hypothesis Hc : forall env e b1 b2, CR b1 b2 -> c1 env e b1 = c2 env e b2.
+Hypothesis Hr : forall b1 b2, CR b1 b2 -> r1 b1 = r2 b2.
+
+Definition cst_ok (s : stmt) : Prop := forall env k1 k2, CR k1 k2 -> EX1 c1 r1 env k1 (cst s) = EX1 c2 r2 env k2 s.
+Lemma coal_sound_list l : Forall cst_ok l ->
+  forall env k1 k2, CR k1 k2 -> EX c1 r1 env k1 (coal_with cst l) = EX c2 r2 env k2 l.
 Proof.
-  induction 1 as [|x r H _ IH]; intros env; [reflexivity|].
-  cbn [coal_with]. fold (coal_with cst). rewrite exec_push, exec_cons, H, IH. reflexivity.
+  induction 1 as [|x r H _ IH]; intros env k1 k2 HK; [reflexivity|].
+  cbn [coal_with]. fold (coal_with cst). rewrite exec_push, exec_cons, (H env k1 k2 HK), (IH env k1 k2 HK). reflexivity.
 Qed.
-Lemma cst_sound s : forall env, EX1 call env (cst s) = EX1 call env s.
+Lemma cst_sound s : cst_ok s.
 Proof.
-  induction s using stmt_ind'; intros env; try reflexivity.
+  induction s using stmt_ind'; intros env k1 k2 HK; try reflexivity.
   - (* SIf *)
-    cbn [cst exec1]. fold (EX call env).
-    change (seq_list (fun s => EX1 call env s)) with (EX call env).
-    rewrite (coal_sound_list th H env), (coal_sound_list el H1 env).
+    cbn [cst exec1].
+    change (seq_list (fun s => EX1 c1 r1 env k1 s)) with (EX c1 r1 env k1).
+    change (seq_list (fun s => EX1 c2 r2 env k2 s)) with (EX c2 r2 env k2).
+    rewrite (coal_sound_list th H env k1 k2 HK), (coal_sound_list el H1 env k1 k2 HK).
     f_equal. destruct (eval_bool env c); [reflexivity|].
-    rewrite chain_map. apply chain_ext; [|reflexivity].
-    eapply Forall_impl; [|exact H0]. intros [c' b] Hb. cbn [snd] in *. apply (coal_sound_list b Hb env).
+    rewrite chain_map. apply (chain_ext env _ (EX c2 r2 env k2) (fun b => b)); [|reflexivity].
+    eapply Forall_impl; [|exact H0]. intros [c' b] Hb. cbn [snd] in *. apply (coal_sound_list b Hb env k1 k2 HK).
   - (* SSwitch *)
     cbn [cst exec1]. f_equal. rewrite pick_map. apply pick_ext.
-    eapply Forall_impl; [|exact H]. intros [c' b] Hb. cbn [snd] in *. apply (coal_sound_list b Hb env).
+    eapply Forall_impl; [|exact H]. intros [c' b] Hb. cbn [snd] in *. apply (coal_sound_list b Hb env k1 k2 HK).
   - (* SFor *)
-    cbn [cst exec1]. f_equal. apply seq_list_ext_all. intros env'. apply (coal_sound_list body H env').
+    cbn [cst exec1]. f_equal. apply seq_list_ext_all. intros env'. apply (coal_sound_list body H env' k1 k2 HK).
+  - (* SCall *) cbn [cst exec1]. f_equal. apply Hc. constructor.
+  - (* SCallB *) cbn [cst exec1]. f_equal. apply Hc. constructor. exact HK.
+  - (* SChildren *) cbn [cst exec1]. apply Hr, HK.
 Qed.
-Theorem coalesce_sound env p : EX call env (coalesce p) = EX call env p.
-Proof. apply coal_sound_list. apply Forall_forall. intros s _. apply cst_sound. Qed.
-
-End WithCall.
+Theorem coalesce_sound_rel env k1 k2 p : CR k1 k2 -> EX c1 r1 env k1 (coalesce p) = EX c2 r2 env k2 p.
+Proof. intros HK. apply coal_sound_list; [|exact HK]. apply Forall_forall. intros s _. apply cst_sound. Qed.
+End Coalesce.
 
 (* ================= the generated statements mean what the template denotes ================= *)
-Section GenCorrect.
-Variable call : E -> expr -> res.      (* how the generated code's calls run *)
-Variable call' : E -> expr -> res.     (* what the denotation of a call is *)
-Hypothesis Hcall : forall env e, call env e = call' env e.
-(* guard for the full trace: class expressions are hoisted, so either the trace does not record them or there are none *)
+(* guard for the full trace: the hoisted kinds are evaluated in front of the element, so either the trace does not record the
+   hoisted evaluations or there are none *)
 Definition G (b : bool) : Prop := tc = false \/ b = true.
 Lemma G_and a b : G (a && b) -> G a /\ G b.
 Proof. intros [H|H]; [split; left; exact H|]. apply andb_prop in H as [H1 H2]. split; right; assumption. Qed.
-
-Lemma exec_glit env s : EX call env (glit s) = lit s.
-Proof. destruct s; [reflexivity|]. cbn [glit]. rewrite exec_cons, exec_nil, andthen_unit_r. reflexivity. Qed.
-
-Lemma G_exists_cons (x : fattr) r : G (negb (existsb attr_has_class (x :: r))) -> G (negb (attr_has_class x)) /\ G (negb (existsb attr_has_class r)).
+Lemma G_true : G true. Proof. right; reflexivity. Qed.
+Lemma G_exists_cons (x : fattr) r : G (negb (existsb attr_hoisted (x :: r))) -> G (negb (attr_hoisted x)) /\ G (negb (existsb attr_hoisted r)).
 Proof. cbn [existsb]. rewrite negb_orb. apply G_and. Qed.
-Lemma hoist_unit_list env l :
-  Forall (fun a => G (negb (attr_has_class a)) -> forall env, EX call env (hoist a) = unit_r) l ->
-  G (negb (existsb attr_has_class l)) -> Forall (fun x => seq_list (fun s => EX1 call env s) (hoist x) = unit_r) l.
-Proof.
-  induction 1 as [|x r Hx _ IH]; intros HG; constructor; apply G_exists_cons in HG as [Ga Gb].
-  - apply (Hx Ga env).
-  - apply IH, Gb.
-Qed.
-Lemma hoist_unit a : G (negb (attr_has_class a)) -> forall env, EX call env (hoist a) = unit_r.
-Proof.
-  induction a using fattr_ind'; intros HG env; try reflexivity.
-  - (* FClass *) destruct HG as [HG|HG]; [|discriminate]. cbn. unfold class_ev. rewrite HG. reflexivity.
-  - (* FCond *)
-    cbn [hoist]. rewrite exec_app. unfold exec. rewrite !seq_list_flat_map.
-    cbn [attr_has_class] in HG. rewrite negb_orb in HG. apply G_and in HG as [G1 G2].
-    rewrite !seq_list_unit; [reflexivity| |]; apply hoist_unit_list; assumption.
-Qed.
-Lemma hoists_unit l : G (negb (existsb attr_has_class l)) -> forall env, EX call env (flat_map hoist l) = unit_r.
-Proof.
-  intros HG env. unfold exec. rewrite seq_list_flat_map. apply seq_list_unit.
-  induction l as [|x r IH]; constructor.
-  - apply hoist_unit. cbn [existsb] in HG. rewrite negb_orb in HG. apply G_and in HG. apply HG.
-  - apply IH. cbn [existsb] in HG. rewrite negb_orb in HG. apply G_and in HG. apply HG.
-Qed.
-
-
-Lemma gattr_correct elem a : G (negb (attr_has_class a)) -> forall env, EX call env (GATTR elem a) = DATTR env a.
-Proof.
-  induction a using fattr_ind'; intros HG env.
-  - cbn [gattr dattr]. rewrite exec_cons, exec_nil, andthen_unit_r. reflexivity.
-  - cbn [gattr dattr]. rewrite exec_cons, exec_nil, andthen_unit_r. reflexivity.
-  - cbn [gattr dattr]. rewrite exec_single. cbn [exec1 chain]. f_equal.
-    change (seq_list (fun s => EX1 call env s)) with (EX call env). rewrite exec_single.
-    destruct (eval_bool env e); reflexivity.
-  - cbn [gattr dattr]. rewrite !exec_cons, exec_nil, andthen_unit_r. reflexivity.
-  - cbn [gattr dattr]. rewrite !exec_cons, exec_nil, andthen_unit_r. cbn [exec1].
-    destruct HG as [HG|HG]; [|discriminate]. unfold class_ev. rewrite HG. reflexivity.
-  - cbn [gattr dattr]. rewrite exec_cons, exec_nil, andthen_unit_r. cbn [exec1 chain]. f_equal.
-    change (seq_list (fun s => EX1 call env s)) with (EX call env).
-    cbn [attr_has_class] in HG. rewrite negb_orb in HG. apply G_and in HG as [G1 G2].
-    assert (L : forall l, Forall (fun a => G (negb (attr_has_class a)) -> forall env, EX call env (GATTR elem a) = DATTR env a) l ->
-                G (negb (existsb attr_has_class l)) -> EX call env (flat_map (GATTR elem) l) = seq_list (DATTR env) l).
-    { intros l HL. induction HL as [|x r Hx _ IH]; intros HGl; [reflexivity|].
-      apply G_exists_cons in HGl as [Ga Gb]. cbn [flat_map seq_list]. fold (seq_list (DATTR env)).
-      rewrite exec_app, (Hx Ga env), (IH Gb). reflexivity. }
-    destruct (eval_bool env e); [apply L|apply L]; assumption.
-Qed.
-Lemma gattrs_correct elem l : G (negb (existsb attr_has_class l)) -> forall env, EX call env (GATTRS elem l) = DATTRS env l.
-Proof.
-  intros HG env. unfold gattrs, dattrs. induction l as [|x r IH]; [reflexivity|].
-  apply G_exists_cons in HG as [Ga Gb]. cbn [flat_map seq_list]. fold (seq_list (DATTR env)).
-  rewrite exec_app, (gattr_correct elem x Ga env), (IH Gb). reflexivity.
-Qed.
-
-Definition gen_ok (n : nd) : Prop := G (hoist_free n) -> forall env next, EX call env (GEN n next) = DEN call' env n next.
-
 Lemma G_forallb_cons {A} (f : A -> bool) x r : G (forallb f (x :: r)) -> G (f x) /\ G (forallb f r).
 Proof. cbn [forallb]. apply G_and. Qed.
-
-Lemma gen_nodes_ok l : Forall gen_ok l -> G (forallb hoist_free l) ->
-  forall env next, EX call env (gen_nodes GEN l next) = seq_nodes (fun c nx => DEN call' env c nx) l next.
-Proof.
-  induction 1 as [|x r Hx _ IH]; intros HG env next; [reflexivity|].
-  apply G_forallb_cons in HG as [Ga Gb].
-  cbn [gen_nodes seq_nodes]. fold (gen_nodes GEN) (seq_nodes (fun c nx => DEN call' env c nx)).
-  rewrite exec_app, (Hx Ga), (IH Gb). reflexivity.
-Qed.
-
 Lemma G_cases_cons {B} (f : B -> bool) (c : expr) b r : G (cases_all f ((c, b) :: r)) -> G (f b) /\ G (cases_all f r).
 Proof. unfold cases_all. cbn [forallb]. apply G_and. Qed.
 
+(* no hoisted attribute: no class and no script expressions *)
+Lemma not_hoisted_nil a : attr_hoisted a = false -> class_exprs a = [] /\ script_exprs a = [].
+Proof.
+  induction a using fattr_ind'; intros Hh; try (split; reflexivity); try discriminate.
+  cbn [attr_hoisted] in Hh. apply orb_false_elim in Hh as [H1 H2]. cbn [class_exprs script_exprs].
+  assert (L : forall l, Forall (fun a => attr_hoisted a = false -> class_exprs a = [] /\ script_exprs a = []) l ->
+              existsb attr_hoisted l = false -> flat_map class_exprs l = [] /\ flat_map script_exprs l = []).
+  { intros l HL. induction HL as [|x r Hx _ IH]; intros Hl; [split; reflexivity|].
+    cbn [existsb] in Hl. apply orb_false_elim in Hl as [Ha Hb]. destruct (Hx Ha) as [X1 X2]. destruct (IH Hb) as [Y1 Y2].
+    cbn [flat_map]. rewrite X1, X2, Y1, Y2. split; reflexivity. }
+  destruct (L th H H1) as [A1 A2]. destruct (L el H0 H2) as [B1 B2]. rewrite A1, A2, B1, B2. split; reflexivity.
+Qed.
+Lemma not_hoisted_nil_list l : existsb attr_hoisted l = false -> flat_map class_exprs l = [] /\ flat_map script_exprs l = [].
+Proof.
+  induction l as [|x r IH]; intros Hl; [split; reflexivity|].
+  cbn [existsb] in Hl. apply orb_false_elim in Hl as [Ha Hb]. destruct (not_hoisted_nil x Ha) as [X1 X2]. destruct (IH Hb) as [Y1 Y2].
+  cbn [flat_map]. rewrite X1, X2, Y1, Y2. split; reflexivity.
+Qed.
+
+(* children blocks: the generated (unmerged) form of a lexical block, bodies inside the guard *)
+Inductive GR : option xb -> option db -> Prop :=
+| GR_none : GR None None
+| GR_some body e xk dk : G (forallb hoist_free body) -> GR xk dk -> GR (Some (XBlk (GENS body None) e xk)) (Some (DBlk body e dk)).
+
+Section GenCorrect.
+Variable xcall : E -> expr -> option xb -> res.   (* how the generated code's calls and children run *)
+Variable xblk : option xb -> res.
+Variable dcall : E -> expr -> option db -> res.   (* what the denotation of a call / of a block is *)
+Variable dblk : option db -> res.
+Hypothesis Hcall : forall env e b1 b2, GR b1 b2 -> xcall env e b1 = dcall env e b2.
+Hypothesis Hblk : forall b1 b2, GR b1 b2 -> xblk b1 = dblk b2.
+Notation X := (EX xcall xblk).
+Notation X1 := (EX1 xcall xblk).
+Notation D := (DEN dcall dblk).
+Notation DS := (DENS dcall dblk).
+
+Lemma hoists_ok l env k : G (negb (existsb attr_hoisted l)) -> X env k (flat_map hoist l) = css_defs orc env l.
+Proof.
+  intros HG. unfold hoist, css_defs. rewrite flat_map_map. unfold exec. rewrite seq_list_map.
+  destruct HG as [HG|HG].
+  - apply seq_list_ext_all. intros e. cbn [exec1]. unfold class_ev. rewrite HG. reflexivity.
+  - apply negb_true_iff in HG. destruct (not_hoisted_nil_list l HG) as [H1 _]. rewrite H1. reflexivity.
+Qed.
+Lemma script_hoist_ok l env k : G (negb (existsb attr_hoisted l)) -> X env k (ghoist_scripts l) = scripts_defs orc env l.
+Proof.
+  intros HG. unfold ghoist_scripts, scripts_defs, script_defs. destruct (flat_map script_exprs l) as [|e es] eqn:Es; [reflexivity|].
+  rewrite exec_single. cbn [exec1]. destruct HG as [HG|HG].
+  - unfold hoist_ev. rewrite HG. reflexivity.
+  - apply negb_true_iff in HG. destruct (not_hoisted_nil_list l HG) as [_ H2]. rewrite H2 in Es. discriminate.
+Qed.
+
+Lemma gexpr_attr_ok env k n v : X env k (gexpr_attr orc n v) = expr_attr orc n (X1 env k v).
+Proof. unfold gexpr_attr, expr_attr. rewrite !exec_cons, exec_nil, andthen_unit_r. reflexivity. Qed.
+
+Lemma gattr_correct elem a : G (negb (attr_hoisted a)) -> forall env k, X env k (GATTR elem a) = DATTR env a.
+Proof.
+  induction a using fattr_ind'; intros HG env k; cbn [gattr dattr]; try (rewrite gexpr_attr_ok; reflexivity); try (apply exec_single).
+  - (* FBoolExpr *) rewrite exec_single. cbn [exec1 chain]. f_equal.
+    change (seq_list (fun s => X1 env k s)) with (X env k). rewrite exec_single.
+    destruct (eval_bool env e); reflexivity.
+  - (* FClass *) rewrite gexpr_attr_ok. cbn [exec1].
+    destruct HG as [HG|HG]; [|discriminate]. unfold class_ev. rewrite HG. reflexivity.
+  - (* FCond *) rewrite exec_single. cbn [exec1 chain]. f_equal.
+    change (seq_list (fun s => X1 env k s)) with (X env k).
+    cbn [attr_hoisted] in HG. rewrite negb_orb in HG. apply G_and in HG as [G1 G2].
+    assert (L : forall l, Forall (fun a => G (negb (attr_hoisted a)) -> forall env k, X env k (GATTR elem a) = DATTR env a) l ->
+                G (negb (existsb attr_hoisted l)) -> X env k (flat_map (GATTR elem) l) = seq_list (DATTR env) l).
+    { intros l HL. induction HL as [|x r Hx _ IH]; intros HGl; [reflexivity|].
+      apply G_exists_cons in HGl as [Ga Gb]. cbn [flat_map seq_list]. fold (seq_list (DATTR env)).
+      rewrite exec_app, (Hx Ga env k), (IH Gb). reflexivity. }
+    destruct (eval_bool env e); [apply L|apply L]; assumption.
+Qed.
+Lemma gattrs_correct elem l : G (negb (existsb attr_hoisted l)) -> forall env k, X env k (GATTRS elem l) = DATTRS env l.
+Proof.
+  intros HG env k. unfold gattrs, dattrs. induction l as [|x r IH]; [reflexivity|].
+  apply G_exists_cons in HG as [Ga Gb]. cbn [flat_map seq_list]. fold (seq_list (DATTR env)).
+  rewrite exec_app, (gattr_correct elem x Ga env k), (IH Gb). reflexivity.
+Qed.
+Lemma gparts_correct env k parts : X env k (flat_map gpart parts) = seq_list (dpart orc env) parts.
+Proof.
+  induction parts as [|p r IH]; [reflexivity|]. cbn [flat_map seq_list]. fold (seq_list (dpart orc env)).
+  rewrite exec_app, IH. f_equal. destruct p as [v|e tr i]; cbn [gpart dpart].
+  - apply exec_glit.
+  - rewrite exec_cons, exec_glit. reflexivity.
+Qed.
+
+Definition gen_ok (n : nd) : Prop :=
+  G (hoist_free n) -> forall env xk dk next, GR xk dk -> X env xk (GEN n next) = D env dk n next.
+
+Lemma gen_nodes_ok l : Forall gen_ok l -> G (forallb hoist_free l) ->
+  forall env xk dk next, GR xk dk -> X env xk (gen_nodes GEN l next) = seq_nodes (fun c nx => D env dk c nx) l next.
+Proof.
+  induction 1 as [|x r Hx _ IH]; intros HG env xk dk next HK; [reflexivity|].
+  apply G_forallb_cons in HG as [Ga Gb].
+  cbn [gen_nodes seq_nodes]. fold (gen_nodes GEN) (seq_nodes (fun c nx => D env dk c nx)).
+  rewrite exec_app, (Hx Ga env xk dk _ HK), (IH Gb env xk dk _ HK). reflexivity.
+Qed.
+
 Theorem gen_correct n : gen_ok n.
 Proof.
-  induction n using nd_ind'; intros HG env next; unfold gen_ok in *;
-    cbn [gen denote]; rewrite exec_app, exec_glit; f_equal; try reflexivity; try (rewrite exec_single; reflexivity);
-    try (rewrite exec_single; cbn [exec1]; rewrite Hcall; reflexivity).
+  induction n using nd_ind'; intros HG env xk dk next HK; unfold gen_ok in *;
+    cbn [gen denote]; rewrite exec_app, exec_glit; f_equal; try reflexivity; try (rewrite exec_single; reflexivity).
   - (* Elem *)
     cbn [hoist_free] in HG. apply G_and in HG as [Ga Gc].
-    rewrite exec_app, (hoists_unit attrs Ga env), andthen_unit_l.
-    rewrite exec_app, exec_cons, exec_nil, andthen_unit_r. cbn [exec1]. f_equal.
-    rewrite exec_app, (gattrs_correct name attrs Ga env). f_equal.
-    rewrite exec_app, exec_cons, exec_nil, andthen_unit_r. cbn [exec1]. f_equal.
+    rewrite exec_app, (hoists_ok attrs env xk Ga). f_equal.
+    rewrite exec_app, (script_hoist_ok attrs env xk Ga). f_equal.
+    rewrite exec_app, exec_single. cbn [exec1]. f_equal.
+    rewrite exec_app, (gattrs_correct name attrs Ga env xk). f_equal.
+    rewrite exec_app, exec_single. cbn [exec1]. f_equal.
     destruct (v && is_nil ch); [reflexivity|].
-    rewrite exec_app, (gen_nodes_ok ch H Gc), exec_cons, exec_nil, andthen_unit_r. reflexivity.
+    rewrite exec_app, (gen_nodes_ok ch H Gc env xk dk _ HK), exec_single. reflexivity.
   - (* Raw *)
     cbn [hoist_free] in HG.
-    rewrite exec_app, exec_cons, exec_nil, andthen_unit_r. cbn [exec1]. f_equal.
-    rewrite exec_app, (gattrs_correct name attrs HG env). f_equal.
+    rewrite exec_app, (script_hoist_ok attrs env xk HG). f_equal.
+    rewrite exec_app, exec_single. cbn [exec1]. f_equal.
+    rewrite exec_app, (gattrs_correct name attrs HG env xk). f_equal.
     rewrite !exec_cons, exec_nil. cbn [exec1]. rewrite andthen_unit_r, !andthen_lit_lit. reflexivity.
+  - (* Script *)
+    cbn [hoist_free] in HG.
+    rewrite exec_app, (script_hoist_ok attrs env xk HG). f_equal.
+    rewrite exec_app, exec_single. cbn [exec1]. f_equal.
+    rewrite exec_app, (gattrs_correct (bs "script") attrs HG env xk). f_equal.
+    rewrite exec_app, exec_single. cbn [exec1]. f_equal.
+    rewrite exec_app, gparts_correct, exec_single. reflexivity.
   - (* If *)
     cbn [hoist_free] in HG. apply G_and in HG as [HG Ge]. apply G_and in HG as [Gt Gi].
-    rewrite exec_cons, exec_nil, andthen_unit_r. cbn [exec1]. f_equal.
-    change (seq_list (fun s => EX1 call env s)) with (EX call env).
-    rewrite (gen_nodes_ok th H Gt), (gen_nodes_ok el H1 Ge).
+    rewrite exec_single. cbn [exec1]. f_equal.
+    change (seq_list (fun s => X1 env xk s)) with (X env xk).
+    rewrite (gen_nodes_ok th H Gt env xk dk _ HK), (gen_nodes_ok el H1 Ge env xk dk _ HK).
     destruct (eval_bool env c); [reflexivity|].
-    rewrite chain_map. apply chain_ext; [|reflexivity].
-    clear -H0 Gi. induction H0 as [|[c' b] r Hb _ IH]; constructor.
-    + cbn [snd] in *. apply G_cases_cons in Gi as [Gb _]. apply (gen_nodes_ok b Hb Gb).
+    rewrite chain_map. apply (chain_ext env _ (fun b => seq_nodes (fun c nx => D env dk c nx) b next) (fun b => b)); [|reflexivity].
+    clear -H0 Gi HK. induction H0 as [|[c' b] r Hb _ IH]; constructor.
+    + cbn [snd] in *. apply G_cases_cons in Gi as [Gb _]. apply (gen_nodes_ok b Hb Gb env xk dk _ HK).
     + apply G_cases_cons in Gi as [_ Gr]. apply IH, Gr.
   - (* Switch *)
     cbn [hoist_free] in HG.
-    rewrite exec_cons, exec_nil, andthen_unit_r. cbn [exec1]. f_equal.
+    rewrite exec_single. cbn [exec1]. f_equal.
     rewrite pick_map. apply pick_ext.
-    clear -H HG. induction H as [|[c' b] r Hb _ IH]; constructor.
-    + cbn [snd] in *. apply G_cases_cons in HG as [Gb _]. apply (gen_nodes_ok b Hb Gb).
+    clear -H HG HK. induction H as [|[c' b] r Hb _ IH]; constructor.
+    + cbn [snd] in *. apply G_cases_cons in HG as [Gb _]. apply (gen_nodes_ok b Hb Gb env xk dk _ HK).
     + apply G_cases_cons in HG as [_ Gr]. apply IH, Gr.
   - (* For *)
     cbn [hoist_free] in HG.
-    rewrite exec_cons, exec_nil, andthen_unit_r. cbn [exec1]. f_equal.
-    apply seq_list_ext_all. intros env'. apply (gen_nodes_ok body H HG).
+    rewrite exec_single. cbn [exec1]. f_equal.
+    apply seq_list_ext_all. intros env'. apply (gen_nodes_ok body H HG env' xk dk _ HK).
+  - (* Call *) rewrite exec_single. cbn [exec1]. f_equal. apply Hcall. constructor.
+  - (* CallB *) cbn [hoist_free] in HG. rewrite exec_single. cbn [exec1]. f_equal. apply Hcall. constructor; assumption.
+  - (* Children *) rewrite exec_single. cbn [exec1]. apply Hblk, HK.
 Qed.
 
-Lemma gens_correct l : G (forallb hoist_free l) -> forall env next, EX call env (GENS l next) = DENS call' env l next.
-Proof. intros HG env next. apply gen_nodes_ok; [|exact HG]. apply Forall_forall. intros n _. apply gen_correct. Qed.
+Lemma gens_correct l : G (forallb hoist_free l) ->
+  forall env xk dk next, GR xk dk -> X env xk (GENS l next) = DS env dk l next.
+Proof. intros HG env xk dk next HK. apply gen_nodes_ok; [| exact HG | exact HK]. apply Forall_forall. intros n _. apply gen_correct. Qed.
 End GenCorrect.
 
-(* ================= files: calls to other templates of the file, on fuel ================= *)
-Notation CX := (call_x E escape eval_str eval_bool eval_for eval_sw eval_class callee call_env tc).
-Notation CD := (call_d E escape eval_str eval_bool eval_for eval_sw eval_class callee call_env tc).
-Notation XF := (exec_f E escape eval_str eval_bool eval_for eval_sw eval_class callee call_env tc).
-Notation DF := (denote_f E escape eval_str eval_bool eval_for eval_sw eval_class callee call_env tc).
+(* ================= files: calls and child blocks, on fuel ================= *)
+Notation CX := (call_x orc tc).
+Notation BX := (blk_x orc tc).
+Notation CD := (call_d orc tc).
+Notation BD := (blk_d orc tc).
+Notation XF := (exec_f orc tc).
+Notation DF := (denote_f orc tc).
 
-Lemma find_compile tbl k : find (compile escape tbl) k = option_map (fun b => coalesce (GENS b None)) (find tbl k).
+Lemma find_compile tbl k : find (compile orc tbl) k = option_map (fun b => coalesce (GENS b None)) (find tbl k).
 Proof.
-  induction tbl as [|[k' b] r IH]; [reflexivity|]. cbn [compile map find]. fold (compile escape r).
+  induction tbl as [|[k' b] r IH]; [reflexivity|]. cbn [compile map find]. fold (compile orc r).
+  destruct (bytes_eqb k k'); [reflexivity|apply IH].
+Qed.
+Lemma find_compile_raw tbl k : find (compile_raw orc tbl) k = option_map (fun b => GENS b None) (find tbl k).
+Proof.
+  induction tbl as [|[k' b] r IH]; [reflexivity|]. cbn [compile_raw map find]. fold (compile_raw orc r).
   destruct (bytes_eqb k k'); [reflexivity|apply IH].
 Qed.
 Lemma find_hoist_free tbl k b : G (tbl_hoist_free tbl) -> find tbl k = Some b -> G (forallb hoist_free b).
@@ -378,25 +463,76 @@ Proof.
   unfold tbl_hoist_free in HG. cbn [forallb] in HG. apply G_and in HG as [Gb Gr]. cbn [find] in F.
   destruct (bytes_eqb k k'); [inversion F; subst; exact Gb|apply IH; assumption].
 Qed.
-Lemma call_agree tbl : G (tbl_hoist_free tbl) -> forall fuel env e, CX (compile escape tbl) fuel env e = CD tbl fuel env e.
+
+(* the merged file runs as the unmerged one *)
+Lemma merged_agree tbl fuel :
+  (forall env e b1 b2, CR b1 b2 -> CX (compile orc tbl) fuel env e b1 = CX (compile_raw orc tbl) fuel env e b2) /\
+  (forall b1 b2, CR b1 b2 -> BX (compile orc tbl) fuel b1 = BX (compile_raw orc tbl) fuel b2).
 Proof.
-  intros HG. induction fuel as [|f IH]; intros env e; [reflexivity|].
-  cbn [call_x call_d]. rewrite find_compile. destruct (find tbl (callee e)) as [b|] eqn:F; [|reflexivity].
-  cbn [option_map]. rewrite coalesce_sound. apply (gens_correct _ _ IH). eapply find_hoist_free; eassumption.
+  induction fuel as [|f [IHc IHb]]; split.
+  - intros; reflexivity.
+  - intros b1 b2 H. destruct H; reflexivity.
+  - intros env e b1 b2 H. cbn [call_x]. destruct (o_comp orc e) as [name|o c|s| |]; try reflexivity.
+    + rewrite find_compile, find_compile_raw. destruct (find tbl name) as [body|]; [|reflexivity]. cbn [option_map].
+      apply (coalesce_sound_rel _ _ _ _ IHc IHb). exact H.
+    + f_equal. f_equal. apply IHb, H.
+  - intros b1 b2 H. destruct H as [|b e k1 k2 H]; cbn [blk_x]; [reflexivity|].
+    apply (coalesce_sound_rel _ _ _ _ IHc IHb). exact H.
+Qed.
+(* the unmerged file runs as the templates denote *)
+Lemma raw_agree tbl : G (tbl_hoist_free tbl) -> forall fuel,
+  (forall env e b1 b2, GR b1 b2 -> CX (compile_raw orc tbl) fuel env e b1 = CD tbl fuel env e b2) /\
+  (forall b1 b2, GR b1 b2 -> BX (compile_raw orc tbl) fuel b1 = BD tbl fuel b2).
+Proof.
+  intros Gt. induction fuel as [|f [IHc IHb]]; split.
+  - intros; reflexivity.
+  - intros b1 b2 H. destruct H; reflexivity.
+  - intros env e b1 b2 H. cbn [call_x call_d]. destruct (o_comp orc e) as [name|o c|s| |]; try reflexivity.
+    + rewrite find_compile_raw. destruct (find tbl name) as [body|] eqn:F; [|reflexivity]. cbn [option_map].
+      apply (gens_correct _ _ _ _ IHc IHb); [eapply find_hoist_free; eassumption|exact H].
+    + f_equal. f_equal. apply IHb, H.
+  - intros b1 b2 H. destruct H as [|body e xk dk Gb H]; cbn [blk_x blk_d]; [reflexivity|].
+    apply (gens_correct _ _ _ _ IHc IHb); assumption.
 Qed.
 
-(* the generated, literal-coalesced code of a file writes exactly what the templates denote - output, evaluation
-   trace and error position - for every expression semantics, every call depth *)
-Theorem generated_code_correct tbl fuel env l next :
-  G (tbl_hoist_free tbl) -> G (forallb hoist_free l) ->
-  XF (compile escape tbl) fuel env (coalesce (GENS l next)) = DF tbl fuel env l next.
+(* the generated form of a lexical child block *)
+Fixpoint raw_blk (b : db) : xb :=
+  match b with DBlk body cap k => XBlk (GENS body None) cap (match k with Some k' => Some (raw_blk k') | None => None end) end.
+Definition kids_free (k : option db) : bool := match k with Some b => blk_hoist_free b | None => true end.
+Fixpoint blk_rel (b : db) : G (blk_hoist_free b) ->
+  CR (Some (compile_blk orc b)) (Some (raw_blk b)) /\ GR (Some (raw_blk b)) (Some b).
 Proof.
-  intros Gt Gl. unfold exec_f, denote_f. rewrite coalesce_sound.
-  apply gens_correct; [apply call_agree; exact Gt|exact Gl].
+  destruct b as [body cap [k|]]; intros HG; cbn [blk_hoist_free] in HG; apply G_and in HG as [Gb Gk].
+  - destruct (blk_rel k Gk) as [C1 G1]. split; cbn [compile_blk raw_blk]; [apply CR_some, C1|apply GR_some; [exact Gb|exact G1]].
+  - split; cbn [compile_blk raw_blk]; [apply CR_some, CR_none|apply GR_some; [exact Gb|apply GR_none]].
+Qed.
+Lemma kids_rel k : G (kids_free k) ->
+  CR (option_map (compile_blk orc) k) (option_map raw_blk k) /\ GR (option_map raw_blk k) k.
+Proof. destruct k as [b|]; intros HG; [apply blk_rel, HG|split; constructor]. Qed.
+Notation XK k := (option_map (compile_blk orc) k).
+
+(* the generated, literal-merged code of a file writes exactly what the templates denote - output, evaluation
+   trace and error position - for every expression semantics, every call depth, with any children *)
+Theorem generated_code_correct tbl fuel env kids l next :
+  G (tbl_hoist_free tbl) -> G (kids_free kids) -> G (forallb hoist_free l) ->
+  XF (compile orc tbl) fuel env (XK kids) (coalesce (GENS l next)) = DF tbl fuel env kids l next.
+Proof.
+  intros Gt Gk Gl. unfold exec_f, denote_f. destruct (kids_rel kids Gk) as [C1 G1].
+  destruct (merged_agree tbl fuel) as [Mc Mb]. destruct (raw_agree tbl Gt fuel) as [Rc Rb].
+  rewrite (coalesce_sound_rel _ _ _ _ Mc Mb env _ _ _ C1).
+  apply (gens_correct _ _ _ _ Rc Rb); assumption.
+Qed.
+(* merging alone, for a whole file: no guard, any program *)
+Fixpoint blk_cr (b : db) : CR (Some (compile_blk orc b)) (Some (raw_blk b)).
+Proof. destruct b as [body cap [k|]]; cbn [compile_blk raw_blk]; constructor; [apply blk_cr|constructor]. Qed.
+Theorem coalesce_sound tbl fuel env kids p :
+  XF (compile orc tbl) fuel env (XK kids) (coalesce p) = XF (compile_raw orc tbl) fuel env (option_map raw_blk kids) p.
+Proof.
+  unfold exec_f. destruct (merged_agree tbl fuel) as [Mc Mb]. apply (coalesce_sound_rel _ _ _ _ Mc Mb).
+  destruct kids as [b|]; [apply blk_cr|constructor].
 Qed.
 
 (* ================= corollaries: the sentences of the property ================= *)
-Lemma G_true : G true. Proof. right; reflexivity. Qed.
 Lemma G_app {A} (f : A -> bool) a b : G (forallb f a) -> G (forallb f b) -> G (forallb f (a ++ b)).
 Proof.
   intros [H|H]; [left; exact H|]. intros [H'|H']; [left; exact H'|]. right. rewrite forallb_app, H, H'. reflexivity.
@@ -407,27 +543,26 @@ Proof.
 Qed.
 
 (* sequencing: a node list renders as its parts in source order, and nothing runs after an error *)
-Theorem nodes_in_order tbl fuel env a b next :
-  G (tbl_hoist_free tbl) -> G (forallb hoist_free a) -> G (forallb hoist_free b) ->
-  XF (compile escape tbl) fuel env (coalesce (GENS (a ++ b) next))
-  = andthen (DF tbl fuel env a (next_of b next)) (DF tbl fuel env b next).
+Theorem nodes_in_order tbl fuel env kids a b next :
+  G (tbl_hoist_free tbl) -> G (kids_free kids) -> G (forallb hoist_free a) -> G (forallb hoist_free b) ->
+  XF (compile orc tbl) fuel env (XK kids) (coalesce (GENS (a ++ b) next))
+  = andthen (DF tbl fuel env kids a (next_of b next)) (DF tbl fuel env kids b next).
 Proof.
-  intros Gt Ga Gb. rewrite generated_code_correct; [|exact Gt|apply G_app; assumption].
+  intros Gt Gk Ga Gb. rewrite generated_code_correct; [|exact Gt|exact Gk|apply G_app; assumption].
   unfold denote_f, denotes. apply seq_nodes_app.
 Qed.
-Theorem error_stops call env p q : err_of (EX call env p) <> None -> EX call env (p ++ q) = EX call env p.
-Proof. intros H. rewrite exec_app. apply andthen_failed, H. Qed.
-Theorem str_error tbl fuel env e t next :
-  eval_str env e = None ->
-  XF (compile escape tbl) fuel env (coalesce (GENS [Str e t] next)) = ([], [(KStr, e)], Some (epos_of e)).
+Theorem str_error tbl fuel env kids e t next :
+  o_str orc env e = None ->
+  XF (compile orc tbl) fuel env kids (coalesce (GENS [Str e t] next)) = ([], [(KStr, e)], Some (epos_of e)).
 Proof.
-  intros H. unfold exec_f. rewrite coalesce_sound. unfold gens. cbn [gen_nodes gen]. rewrite app_nil_r, exec_app, exec_single.
-  cbn [exec1]. unfold str_val. rewrite H. reflexivity.
+  intros H. unfold exec_f, coalesce, gens. cbn [gen_nodes gen]. rewrite app_nil_r.
+  destruct (trailer (Str e t) next) as [|b r]; cbn [glit app coal_with cst push]; rewrite ?exec_cons; cbn [exec1];
+    unfold str_val; rewrite H; reflexivity.
 Qed.
 
 (* static markup in source order *)
 Lemma static_attrs_denote l a :
-  static_attrs escape l = Some a -> (forall env, DATTRS env l = lit a) /\ existsb attr_has_class l = false.
+  static_attrs escape l = Some a -> (forall env, DATTRS env l = lit a) /\ existsb attr_hoisted l = false.
 Proof.
   revert a. induction l as [|x r IH]; intros a H.
   - inversion H. split; reflexivity.
@@ -437,13 +572,14 @@ Proof.
     destruct x; try discriminate; cbn in Hx; inversion Hx; subst;
       (split; [intros env; unfold dattrs; cbn [seq_list]; fold (seq_list (DATTR env));
                change (seq_list (DATTR env) r) with (DATTRS env r); rewrite IH1; reflexivity
-              |cbn [existsb attr_has_class]; exact IH2]).
+              |cbn [existsb attr_hoisted]; exact IH2]).
 Qed.
 Definition static_ok (n : nd) : Prop :=
-  forall next s, static_node escape n next = Some s -> hoist_free n = true /\ forall call env, DEN call env n next = lit s.
+  forall next s, static_node escape n next = Some s ->
+  hoist_free n = true /\ forall dcall dblk env kids, DEN dcall dblk env kids n next = lit s.
 Lemma static_nodes_ok l : Forall static_ok l ->
   forall next s, static_nodes (static_node escape) l next = Some s ->
-  forallb hoist_free l = true /\ forall call env, DENS call env l next = lit s.
+  forallb hoist_free l = true /\ forall dcall dblk env kids, DENS dcall dblk env kids l next = lit s.
 Proof.
   induction 1 as [|x r Hx _ IH]; intros next s H.
   - inversion H. split; reflexivity.
@@ -452,8 +588,13 @@ Proof.
     destruct (static_nodes (static_node escape) r next) as [rs|] eqn:E2; [|discriminate]. inversion H; subst.
     destruct (Hx _ _ E1) as [H1 H2]. destruct (IH _ _ E2) as [H3 H4]. split.
     + cbn [forallb]. rewrite H1, H3. reflexivity.
-    + intros call env. unfold denotes. cbn [seq_nodes]. fold (seq_nodes (fun c nx => DEN call env c nx)).
-      rewrite H2. change (seq_nodes (fun c nx => DEN call env c nx) r next) with (DENS call env r next). rewrite H4. reflexivity.
+    + intros dcall dblk env kids. unfold denotes. cbn [seq_nodes]. fold (seq_nodes (fun c nx => DEN dcall dblk env kids c nx)).
+      rewrite H2. change (seq_nodes (fun c nx => DEN dcall dblk env kids c nx) r next) with (DENS dcall dblk env kids r next).
+      rewrite H4. reflexivity.
+Qed.
+Lemma no_defs l env : existsb attr_hoisted l = false -> css_defs orc env l = unit_r /\ scripts_defs orc env l = unit_r.
+Proof.
+  intros H. destruct (not_hoisted_nil_list l H) as [H1 H2]. unfold css_defs, scripts_defs. rewrite H1, H2. split; reflexivity.
 Qed.
 Lemma static_node_ok n : static_ok n.
 Proof.
@@ -466,130 +607,218 @@ Proof.
     cbn [option_map] in Hs. inversion Hs; subst.
     destruct (static_attrs_denote _ _ Ha) as [A1 A2]. destruct (static_nodes_ok _ H _ _ Hc) as [C1 C2]. split.
     + cbn [hoist_free]. rewrite A2, C1. reflexivity.
-    + intros call env. cbn [denote]. rewrite A1.
-      change (seq_nodes (fun c nx => DEN call env c nx) ch None) with (DENS call env ch None). rewrite C2.
+    + intros dcall dblk env kids. cbn [denote]. destruct (no_defs attrs env A2) as [D1 D2]. rewrite D1, D2, A1, !andthen_unit_l.
+      change (seq_nodes (fun c nx => DEN dcall dblk env kids c nx) ch None) with (DENS dcall dblk env kids ch None). rewrite C2.
+      unfold sopen, sclose, open_tag, close_tag.
       destruct (v && is_nil ch); cbn; rewrite ?app_nil_r, <- ?app_assoc; reflexivity.
   - (* Raw *)
     destruct (static_attrs escape attrs) as [a|] eqn:Ha; [|discriminate].
     cbn [option_map] in Hs. inversion Hs; subst.
     destruct (static_attrs_denote _ _ Ha) as [A1 A2]. split.
     + cbn [hoist_free]. rewrite A2. reflexivity.
-    + intros call env. cbn [denote]. rewrite A1. cbn; rewrite ?app_nil_r, <- ?app_assoc; reflexivity.
+    + intros dcall dblk env kids. cbn [denote]. destruct (no_defs attrs env A2) as [D1 D2]. rewrite D2, A1, !andthen_unit_l.
+      unfold sopen, sclose, open_tag, close_tag. cbn; rewrite ?app_nil_r, <- ?app_assoc; reflexivity.
   - inversion Hs. split; [reflexivity|]. intros. reflexivity.
   - inversion Hs. split; [reflexivity|]. intros. reflexivity.
   - inversion Hs. split; [reflexivity|]. intros. reflexivity.
 Qed.
-Theorem static_in_order tbl fuel env l next s :
-  G (tbl_hoist_free tbl) -> static_render escape l next = Some s ->
-  XF (compile escape tbl) fuel env (coalesce (GENS l next)) = lit s.
+Theorem static_in_order tbl fuel env kids l next s :
+  G (tbl_hoist_free tbl) -> G (kids_free kids) -> static_render escape l next = Some s ->
+  XF (compile orc tbl) fuel env (XK kids) (coalesce (GENS l next)) = lit s.
 Proof.
-  intros Gt H. unfold static_render in H.
+  intros Gt Gk H. unfold static_render in H.
   destruct (static_nodes_ok l (proj2 (Forall_forall _ _) (fun n _ => static_node_ok n)) _ _ H) as [H1 H2].
-  rewrite generated_code_correct; [|exact Gt|right; exact H1]. apply H2.
+  rewrite generated_code_correct; [|exact Gt|exact Gk|right; exact H1]. apply H2.
 Qed.
 
 (* void elements are not closed *)
-Theorem void_unclosed tbl fuel env name b attrs t next :
-  G (tbl_hoist_free tbl) -> G (negb (existsb attr_has_class attrs)) ->
-  XF (compile escape tbl) fuel env (coalesce (GENS [Elem name b true attrs [] t] next))
-  = andthen (lit (open_tag escape name)) (andthen (DATTRS env attrs) (lit ([x3e] ++ trailer (Elem name b true attrs [] t) next))).
+Theorem void_unclosed tbl fuel env kids name b attrs t next :
+  G (tbl_hoist_free tbl) -> G (kids_free kids) -> G (negb (existsb attr_hoisted attrs)) ->
+  XF (compile orc tbl) fuel env (XK kids) (coalesce (GENS [Elem name b true attrs [] t] next))
+  = andthen (css_defs orc env attrs) (andthen (scripts_defs orc env attrs)
+      (andthen (lit (open_tag orc name)) (andthen (DATTRS env attrs) (lit ([x3e] ++ trailer (Elem name b true attrs [] t) next))))).
 Proof.
-  intros Gt Ga. rewrite generated_code_correct; [|exact Gt|].
+  intros Gt Gk Ga. rewrite generated_code_correct; [|exact Gt|exact Gk|].
   - unfold denote_f, denotes. cbn [seq_nodes next_of denote andb is_nil].
     rewrite !andthen_unit_r, !andthen_assoc, andthen_lit_lit. reflexivity.
   - destruct Ga as [Ga|Ga]; [left; exact Ga|right]. cbn [forallb hoist_free]. rewrite Ga. reflexivity.
 Qed.
 
 (* Go comments are omitted *)
-Theorem go_comments_omitted tbl fuel env a b next :
-  G (tbl_hoist_free tbl) -> G (forallb hoist_free a) -> G (forallb hoist_free b) ->
-  XF (compile escape tbl) fuel env (coalesce (GENS (a ++ GoComment :: b) next))
-  = andthen (DF tbl fuel env a (Some GoComment)) (DF tbl fuel env b next).
+Theorem go_comments_omitted tbl fuel env kids a b next :
+  G (tbl_hoist_free tbl) -> G (kids_free kids) -> G (forallb hoist_free a) -> G (forallb hoist_free b) ->
+  XF (compile orc tbl) fuel env (XK kids) (coalesce (GENS (a ++ GoComment :: b) next))
+  = andthen (DF tbl fuel env kids a (Some GoComment)) (DF tbl fuel env kids b next).
 Proof.
-  intros Gt Ga Gb. rewrite nodes_in_order; [|exact Gt|exact Ga|apply G_cons; [apply G_true|exact Gb]].
+  intros Gt Gk Ga Gb. rewrite nodes_in_order; [|exact Gt|exact Gk|exact Ga|apply G_cons; [apply G_true|exact Gb]].
   cbn [next_of]. f_equal. unfold denote_f, denotes. cbn [seq_nodes denote].
   rewrite ?andthen_unit_l. reflexivity.
 Qed.
 
-(* conditional and boolean attributes are present exactly when their conditions hold *)
-Theorem cond_attrs_iff call env elem c th el :
-  G (negb (existsb attr_has_class th || existsb attr_has_class el)) ->
-  EX call env (coalesce (GATTRS elem [FCond c th el]))
+(* attributes: present exactly when their conditions hold; every sink writes its value in its own way *)
+Lemma attrs_merged tbl fuel env kids elem l : G (negb (existsb attr_hoisted l)) ->
+  XF (compile orc tbl) fuel env (XK kids) (coalesce (GATTRS elem l)) = DATTRS env l.
+Proof. intros HG. rewrite coalesce_sound. unfold exec_f. apply gattrs_correct. exact HG. Qed.
+Theorem cond_attrs_iff tbl fuel env kids elem c th el :
+  G (negb (existsb attr_hoisted th || existsb attr_hoisted el)) ->
+  XF (compile orc tbl) fuel env (XK kids) (coalesce (GATTRS elem [FCond c th el]))
   = andthen (evt KBool c) (DATTRS env (if eval_bool env c then th else el)).
 Proof.
-  intros HG. rewrite coalesce_sound, (gattrs_correct call).
+  intros HG. rewrite attrs_merged.
   - unfold dattrs. cbn [seq_list dattr]. rewrite andthen_unit_r. destruct (eval_bool env c); reflexivity.
-  - cbn [existsb attr_has_class]. rewrite orb_false_r. exact HG.
+  - cbn [existsb attr_hoisted]. rewrite orb_false_r. exact HG.
 Qed.
-Theorem bool_attr_iff call env elem n e :
-  EX call env (coalesce (GATTRS elem [FBoolExpr n e]))
+Theorem bool_attr_iff tbl fuel env kids elem n e :
+  XF (compile orc tbl) fuel env (XK kids) (coalesce (GATTRS elem [FBoolExpr n e]))
   = andthen (evt KBool e) (if eval_bool env e then lit ([x20] ++ escape n) else unit_r).
-Proof.
-  rewrite coalesce_sound, (gattrs_correct call); [|apply G_true].
-  unfold dattrs. cbn [seq_list dattr]. apply andthen_unit_r.
-Qed.
-(* attribute values are escaped *)
-Theorem attr_value_escaped call env elem n e s :
-  eval_str env e = Some s ->
-  EX call env (coalesce (GATTRS elem [FExpr n e])) = ([x20] ++ escape n ++ [x3d; x22] ++ escape s ++ [x22], [(KStr, e)], None).
-Proof.
-  intros H. rewrite coalesce_sound, (gattrs_correct call); [|apply G_true].
-  unfold dattrs. cbn [seq_list dattr]. unfold str_val. rewrite H. cbn. rewrite ?app_nil_r, <- ?app_assoc. reflexivity.
-Qed.
+Proof. rewrite attrs_merged; [|apply G_true]. unfold dattrs. cbn [seq_list dattr]. apply andthen_unit_r. Qed.
+(* the value of an expression attribute, by sink: name="value" where value is ... *)
+Theorem expr_attr_default tbl fuel env kids elem n e :
+  XF (compile orc tbl) fuel env (XK kids) (coalesce (GATTRS elem [FExpr n e]))
+  = expr_attr orc n (val_or_err KStr e (option_map escape (o_str orc env e))).        (* escaped; an error stops the rendering *)
+Proof. rewrite attrs_merged; [|apply G_true]. unfold dattrs. cbn [seq_list dattr]. apply andthen_unit_r. Qed.
+Theorem expr_attr_url tbl fuel env kids elem n e :
+  XF (compile orc tbl) fuel env (XK kids) (coalesce (GATTRS elem [FUrl n e]))
+  = expr_attr orc n (escape (o_url orc env e), [(KUrl, e)], None).                     (* the SafeURL, escaped *)
+Proof. rewrite attrs_merged; [|apply G_true]. unfold dattrs. cbn [seq_list dattr]. apply andthen_unit_r. Qed.
+Theorem expr_attr_style tbl fuel env kids elem n e :
+  XF (compile orc tbl) fuel env (XK kids) (coalesce (GATTRS elem [FStyle n e]))
+  = expr_attr orc n (val_or_err KStyle e (o_style orc env e)).                         (* the sanitised value as returned; error stops *)
+Proof. rewrite attrs_merged; [|apply G_true]. unfold dattrs. cbn [seq_list dattr]. apply andthen_unit_r. Qed.
+Theorem spread_attr tbl fuel env kids elem e :
+  XF (compile orc tbl) fuel env (XK kids) (coalesce (GATTRS elem [FSpread e])) = (o_spread orc env e, [(KSpread, e)], None).
+Proof. rewrite attrs_merged; [|apply G_true]. unfold dattrs. cbn [seq_list dattr]. apply andthen_unit_r. Qed.
+(* an on* attribute writes the script's call, unescaped; (its evaluation for RenderScriptItems is the hoisted one) *)
+Theorem expr_attr_script tbl fuel env kids elem n e :
+  tc = false ->
+  XF (compile orc tbl) fuel env (XK kids) (coalesce (GATTRS elem [FScript n e]))
+  = expr_attr orc n (o_script_call orc env e, [(KScript, e)], None).
+Proof. intros H. rewrite attrs_merged; [|left; exact H]. unfold dattrs. cbn [seq_list dattr]. apply andthen_unit_r. Qed.
 
 (* whitespace is only normalised *)
 Lemma trailer_none n : trailer n None = [].
 Proof. unfold trailer. destruct (trail_of n) as [[| |]|]; try reflexivity; rewrite andb_false_r; reflexivity. Qed.
-Lemma denote_split call env a nx t :
-  trail_of a = Some t -> DEN call env a nx = andthen (DEN call env a None) (lit (trailer a nx)).
+Lemma denote_split dcall dblk env kids a nx t :
+  trail_of a = Some t -> DEN dcall dblk env kids a nx = andthen (DEN dcall dblk env kids a None) (lit (trailer a nx)).
 Proof.
   destruct a; try discriminate; intros _; cbn [denote]; rewrite trailer_none, lit_nil, andthen_unit_r; reflexivity.
 Qed.
-Theorem ws_not_invented tbl fuel env a b next :
-  G (tbl_hoist_free tbl) -> G (hoist_free a) -> G (hoist_free b) ->
+Theorem ws_not_invented tbl fuel env kids a b next :
+  G (tbl_hoist_free tbl) -> G (kids_free kids) -> G (hoist_free a) -> G (hoist_free b) ->
   trail_of a = Some SpNone ->
-  XF (compile escape tbl) fuel env (coalesce (GENS [a; b] next))
-  = andthen (DF tbl fuel env [a] None) (DF tbl fuel env [b] next).
+  XF (compile orc tbl) fuel env (XK kids) (coalesce (GENS [a; b] next))
+  = andthen (DF tbl fuel env kids [a] None) (DF tbl fuel env kids [b] next).
 Proof.
-  intros Gt Ga Gb H. rewrite generated_code_correct; [|exact Gt|apply G_cons; [exact Ga|apply G_cons; [exact Gb|apply G_true]]].
+  intros Gt Gk Ga Gb H. rewrite generated_code_correct; [|exact Gt|exact Gk|apply G_cons; [exact Ga|apply G_cons; [exact Gb|apply G_true]]].
   unfold denote_f, denotes. cbn [seq_nodes next_of]. rewrite !andthen_unit_r.
-  rewrite (denote_split _ env a (Some b) SpNone H). unfold trailer at 1. rewrite H, lit_nil, andthen_unit_r. reflexivity.
+  rewrite (denote_split _ _ env kids a (Some b) SpNone H). unfold trailer at 1. rewrite H, lit_nil, andthen_unit_r. reflexivity.
 Qed.
-Theorem ws_not_lost tbl fuel env a b next t :
-  G (tbl_hoist_free tbl) -> G (hoist_free a) -> G (hoist_free b) ->
+Theorem ws_not_lost tbl fuel env kids a b next t :
+  G (tbl_hoist_free tbl) -> G (kids_free kids) -> G (hoist_free a) -> G (hoist_free b) ->
   trail_of a = Some t -> t <> SpNone -> inline (Some a) = true -> inline (Some b) = true ->
-  XF (compile escape tbl) fuel env (coalesce (GENS [a; b] next))
-  = andthen (DF tbl fuel env [a] None) (andthen (lit [x20]) (DF tbl fuel env [b] next)).
+  XF (compile orc tbl) fuel env (XK kids) (coalesce (GENS [a; b] next))
+  = andthen (DF tbl fuel env kids [a] None) (andthen (lit [x20]) (DF tbl fuel env kids [b] next)).
 Proof.
-  intros Gt Ga Gb H Ht Ia Ib. rewrite generated_code_correct; [|exact Gt|apply G_cons; [exact Ga|apply G_cons; [exact Gb|apply G_true]]].
+  intros Gt Gk Ga Gb H Ht Ia Ib. rewrite generated_code_correct; [|exact Gt|exact Gk|apply G_cons; [exact Ga|apply G_cons; [exact Gb|apply G_true]]].
   unfold denote_f, denotes. cbn [seq_nodes next_of]. rewrite !andthen_unit_r.
-  rewrite (denote_split _ env a (Some b) t H). unfold trailer at 1. rewrite H, Ia, Ib.
+  rewrite (denote_split _ _ env kids a (Some b) t H). unfold trailer at 1. rewrite H, Ia, Ib.
   destruct t; [contradiction| |]; cbn [andb]; rewrite andthen_assoc; reflexivity.
 Qed.
 (* ... and a block-level neighbour gets no space *)
-Theorem ws_block_no_space tbl fuel env a b next :
-  G (tbl_hoist_free tbl) -> G (hoist_free a) -> G (hoist_free b) ->
+Theorem ws_block_no_space tbl fuel env kids a b next :
+  G (tbl_hoist_free tbl) -> G (kids_free kids) -> G (hoist_free a) -> G (hoist_free b) ->
   inline (Some a) && inline (Some b) = false ->
   (exists t, trail_of a = Some t) ->
-  XF (compile escape tbl) fuel env (coalesce (GENS [a; b] next))
-  = andthen (DF tbl fuel env [a] None) (DF tbl fuel env [b] next).
+  XF (compile orc tbl) fuel env (XK kids) (coalesce (GENS [a; b] next))
+  = andthen (DF tbl fuel env kids [a] None) (DF tbl fuel env kids [b] next).
 Proof.
-  intros Gt Ga Gb Hi [t H]. rewrite generated_code_correct; [|exact Gt|apply G_cons; [exact Ga|apply G_cons; [exact Gb|apply G_true]]].
+  intros Gt Gk Ga Gb Hi [t H]. rewrite generated_code_correct; [|exact Gt|exact Gk|apply G_cons; [exact Ga|apply G_cons; [exact Gb|apply G_true]]].
   unfold denote_f, denotes. cbn [seq_nodes next_of]. rewrite !andthen_unit_r.
-  rewrite (denote_split _ env a (Some b) t H). unfold trailer at 1. rewrite H, Hi.
+  rewrite (denote_split _ _ env kids a (Some b) t H). unfold trailer at 1. rewrite H, Hi.
   destruct t; rewrite lit_nil, andthen_unit_r; reflexivity.
 Qed.
 
 (* expressions are evaluated only where control flow reaches them *)
-Theorem eval_only_where_reached tbl fuel env l next :
-  G (tbl_hoist_free tbl) -> G (forallb hoist_free l) ->
-  trace_of (XF (compile escape tbl) fuel env (coalesce (GENS l next))) = trace_of (DF tbl fuel env l next).
-Proof. intros Gt Gl. rewrite generated_code_correct by assumption. reflexivity. Qed.
-Theorem untaken_branch_silent tbl fuel env c th next :
+Theorem eval_only_where_reached tbl fuel env kids l next :
+  G (tbl_hoist_free tbl) -> G (kids_free kids) -> G (forallb hoist_free l) ->
+  trace_of (XF (compile orc tbl) fuel env (XK kids) (coalesce (GENS l next))) = trace_of (DF tbl fuel env kids l next).
+Proof. intros Gt Gk Gl. rewrite generated_code_correct by assumption. reflexivity. Qed.
+Theorem untaken_branch_silent tbl fuel env kids c th next :
   eval_bool env c = false ->
-  XF (compile escape tbl) fuel env (coalesce (GENS [If c th [] false []] next)) = evt KBool c.
+  XF (compile orc tbl) fuel env kids (coalesce (GENS [If c th [] false []] next)) = evt KBool c.
 Proof.
-  intros H. unfold exec_f. rewrite coalesce_sound. unfold gens. cbn [gen_nodes gen map]. rewrite !app_nil_r.
+  intros H. unfold exec_f, coalesce, gens. cbn [gen_nodes gen map trailer trail_of glit app coal_with cst push].
   rewrite exec_single. cbn [exec1 chain]. rewrite H. reflexivity.
 Qed.
+
+(* ---------- component calls, child blocks, the children slot ---------- *)
+Lemma single_call dcall dblk env kids n next : trail_of n = None ->
+  DENS dcall dblk env kids [n] next = DEN dcall dblk env kids n next.
+Proof. intros _. unfold denotes. cbn [seq_nodes]. apply andthen_unit_r. Qed.
+Lemma den_trail_none dcall dblk env kids n next r :
+  trail_of n = None -> DEN dcall dblk env kids n next = andthen r (lit (trailer n next)) -> DEN dcall dblk env kids n next = r.
+Proof. intros H E0. rewrite E0. unfold trailer. rewrite H, lit_nil. apply andthen_unit_r. Qed.
+(* a block call of a template of the file: the callee's body runs in the callee's environment, and the block - a lexical
+   closure: the caller's environment and the caller's own children - is what its { children... } renders *)
+Theorem call_with_block_template tbl fuel env kids e ch next name body :
+  G (tbl_hoist_free tbl) -> G (kids_free kids) -> G (forallb hoist_free ch) ->
+  o_comp orc e = KTempl name -> find tbl name = Some body ->
+  XF (compile orc tbl) (S fuel) env (XK kids) (coalesce (GENS [CallB e ch] next))
+  = andthen (evt KCall e) (DF tbl fuel (o_call_env orc env e) (Some (DBlk ch env kids)) body None).
+Proof.
+  intros Gt Gk Gc Hc Hf. rewrite generated_code_correct; [|exact Gt|exact Gk|].
+  - unfold denote_f. rewrite single_call by reflexivity. cbn [denote trailer trail_of]. rewrite lit_nil, andthen_unit_r.
+    f_equal. cbn [call_d]. rewrite Hc, Hf. reflexivity.
+  - destruct Gc as [Gc|Gc]; [left; exact Gc|right]. cbn [forallb hoist_free]. rewrite Gc. reflexivity.
+Qed.
+(* { children... } renders the block in the environment, and with the children, of the place where it was written *)
+Theorem children_render_the_block tbl fuel env ch cap k next :
+  G (tbl_hoist_free tbl) -> G (kids_free (Some (DBlk ch cap k))) ->
+  XF (compile orc tbl) (S fuel) env (XK (Some (DBlk ch cap k))) (coalesce (GENS [Children] next))
+  = DF tbl fuel cap k ch None.
+Proof.
+  intros Gt Gk. rewrite generated_code_correct; [|exact Gt|exact Gk|apply G_true].
+  unfold denote_f. rewrite single_call by reflexivity. cbn [denote trailer trail_of]. rewrite lit_nil, andthen_unit_r.
+  reflexivity.
+Qed.
+(* a call without a block hands no children over; without children { children... } renders nothing *)
+Theorem no_block_no_children tbl fuel env kids e next name body :
+  G (tbl_hoist_free tbl) -> G (kids_free kids) ->
+  o_comp orc e = KTempl name -> find tbl name = Some body ->
+  XF (compile orc tbl) (S fuel) env (XK kids) (coalesce (GENS [Call e] next))
+  = andthen (evt KCall e) (DF tbl fuel (o_call_env orc env e) None body None).
+Proof.
+  intros Gt Gk Hc Hf. rewrite generated_code_correct; [|exact Gt|exact Gk|apply G_true].
+  unfold denote_f. rewrite single_call by reflexivity. cbn [denote trailer trail_of]. rewrite lit_nil, andthen_unit_r.
+  f_equal. cbn [call_d]. rewrite Hc, Hf. reflexivity.
+Qed.
+Theorem children_none_empty tbl fuel env next :
+  XF (compile orc tbl) fuel env None (coalesce (GENS [Children] next)) = unit_r.
+Proof.
+  unfold exec_f, coalesce, gens. cbn [gen_nodes gen trailer trail_of glit app coal_with cst push]. rewrite exec_single.
+  cbn [exec1]. destruct fuel; reflexivity.
+Qed.
+(* hand-written components: a wrapper renders the block it was given between its own output; an opaque one ignores it *)
+Theorem call_with_block_wrapper tbl fuel env kids e ch next o c :
+  G (tbl_hoist_free tbl) -> G (kids_free kids) -> G (forallb hoist_free ch) ->
+  o_comp orc e = KWrap o c ->
+  XF (compile orc tbl) (S (S fuel)) env (XK kids) (coalesce (GENS [CallB e ch] next))
+  = andthen (evt KCall e) (andthen (lit o) (andthen (DF tbl fuel env kids ch None) (lit c))).
+Proof.
+  intros Gt Gk Gc Hc. rewrite generated_code_correct; [|exact Gt|exact Gk|].
+  - unfold denote_f. rewrite single_call by reflexivity. cbn [denote trailer trail_of]. rewrite lit_nil, andthen_unit_r.
+    f_equal. cbn [call_d]. rewrite Hc. reflexivity.
+  - destruct Gc as [Gc|Gc]; [left; exact Gc|right]. cbn [forallb hoist_free]. rewrite Gc. reflexivity.
+Qed.
+Theorem call_with_block_opaque tbl fuel env kids e ch next s :
+  G (tbl_hoist_free tbl) -> G (kids_free kids) -> G (forallb hoist_free ch) ->
+  o_comp orc e = KOpaque s ->
+  XF (compile orc tbl) (S fuel) env (XK kids) (coalesce (GENS [CallB e ch] next)) = andthen (evt KCall e) (lit s).
+Proof.
+  intros Gt Gk Gc Hc. rewrite generated_code_correct; [|exact Gt|exact Gk|].
+  - unfold denote_f. rewrite single_call by reflexivity. cbn [denote trailer trail_of]. rewrite lit_nil, andthen_unit_r.
+    f_equal. cbn [call_d]. rewrite Hc. reflexivity.
+  - destruct Gc as [Gc|Gc]; [left; exact Gc|right]. cbn [forallb hoist_free]. rewrite Gc. reflexivity.
+Qed.
 End Proofs.
+Arguments raw_blk {E}. Arguments kids_free {E}.
